@@ -243,6 +243,20 @@ def check_scalar(A, code, vendor, cls, tname, entry_mand, value, m, p, out, ctx)
             if d.as_bytes() != w:
                 out.append(Violation(f"avp:{tname}:reencode-mismatch", f"{case}: {d.as_bytes().hex()[:80]} != {w.hex()[:80]}", case))
                 return
+            if wfl == fl:
+                # a decoded AVP whose header fields are changed (the value left alone) encodes with the new header
+                d.is_mandatory = not d.is_mandatory
+                d.is_private = not d.is_private
+                nfl = wfl ^ M ^ P
+                if d.as_bytes() != rc.enc_avp(code, ref_payload, nfl, vendor):
+                    out.append(Violation(f"avp:{tname}:header-change-after-decode-not-encoded:flags",
+                                         f"{case}: M and P toggled on the decoded AVP, encoded {d.as_bytes().hex()[:60]} want {rc.enc_avp(code, ref_payload, nfl, vendor).hex()[:60]}", case))
+                    return
+                d.vendor_id = 0 if vendor else 4242
+                if d.as_bytes() != rc.enc_avp(code, ref_payload, nfl, 0 if vendor else 4242):
+                    out.append(Violation(f"avp:{tname}:header-change-after-decode-not-encoded:vendor",
+                                         f"{case}: vendor id changed on the decoded AVP, encoded {d.as_bytes().hex()[:60]}", case))
+                    return
         except Exception as e:
             out.append(Violation(f"avp:{tname}:{sub}:decode-raises", f"{case} wire={w.hex()[:80]}: {type(e).__name__}: {e}", case))
             return
